@@ -3,6 +3,7 @@ package checks
 import (
 	"bytes"
 	"fmt"
+	"strings"
 	"time"
 
 	"verif/h"
@@ -140,4 +141,12 @@ func C07(tier string) int {
 		}
 	})
 	return run.Finish()
+}
+
+// firstLogLine keeps messages deterministic (stack traces contain addresses).
+func firstLogLine(log string) string {
+	if i := strings.IndexByte(log, '\n'); i >= 0 {
+		return log[:i]
+	}
+	return log
 }
